@@ -75,7 +75,7 @@ AGENT_CHECKS = {
     },
     "C17": {
         "pkg": "p17",
-        "runs": [_r("TestC17", 400, 20000)],
+        "runs": [_r("TestC17", 1500, 20000)],
         "rule": "rapid draws 4-14 (thorough 4-20) steps over 1-2 fresh stores on one process-wide server with default model/typesystem caches: "
                 "WriteAuthorizationModel with a shared-generator model (~60%) or an invalid-by-construction mutant tagged with one of 17 documented "
                 "validation rules, ReadAuthorizationModel (accepted / unknown / other store's id), ReadAuthorizationModels (all pages), model-less "
@@ -105,7 +105,7 @@ AGENT_CHECKS = {
     },
     "C22": {
         "pkg": "p22",
-        "runs": [_r("TestC22", 5000, 300000, race=True, qt=1500, tt=6000)],
+        "runs": [_r("TestC22", 20000, 300000, race=True, qt=1500, tt=6000)],
         "rule": "rapid draws a small concurrent program: target mpmc.Queue (capacity 2/4, extensions 0/1/-1, 1-3 producers, 1-3 consumers; 30% in the exact "
                 "medium.go configuration MustQueue(cap,-1) with ONE consumer) or mpsc.Accumulator (1-3 producers, 1 consumer); 1-6 calls per goroutine, "
                 "per-call schedule byte -> 0..12 runtime.Gosched, Close at a drawn point, Send with a cancelled context, double Close; the program runs "
@@ -122,7 +122,7 @@ AGENT_CHECKS = {
     },
     "C23": {
         "pkg": "p23",
-        "runs": [_r("TestC23", 10000, 1000000), _r("TestC23Concurrent", 2000, 100000, race=True)],
+        "runs": [_r("TestC23", 60000, 1000000), _r("TestC23Concurrent", 10000, 100000, race=True)],
         "rule": "case = adapter (static, tuple-key view, Concat, NewCombinedIterator, Merge, OrderedCombinedIterator, iterator.NewFilteredIterator, Validate, "
                 "NewFilteredTupleKeyIterator, ConditionsFilteredTupleKeyIterator, SkipTo, FromChannel, Stream, FanInIteratorChannels, shared iterator through "
                 "the shared-iterator datastore wrapper) + input sequences (len<=12, alphabet 0..5, sorted where required) + one injected input error at k in "
@@ -152,7 +152,7 @@ AGENT_CHECKS = {
     },
     "C27": {
         "pkg": "p27",
-        "runs": [_r("TestC27", 3000, 300000)],
+        "runs": [_r("TestC27", 15000, 300000)],
         "rule": "rapid draws a credential *description*, never a token. OIDC (70%): alg {RS256,RS384,HS256 keyed with the RSA public-key PEM,none} x signer "
                 "{published key A, published key B, unpublished key, bit-flipped / truncated / emptied signature, payload swapped after signing} x kid x exp "
                 "{future, absent, past, 0, string, bool, null} x iat {absent, past, future} x aud x iss {issuer, alias, other, absent} x sub x authenticator "
@@ -245,7 +245,7 @@ AGENT_CHECKS = {
     },
     "C26": {
         "pkg": "p26",
-        "runs": [_r("TestC26", 400, 20000, qt=1500)],
+        "runs": [_r("TestC26", 1500, 20000, qt=1500)],
         "rule": "case = 2-3 target stores (3 model templates with type- and relation-level module metadata) + 0-8 grant draws in a real access-control store "
                 "(FGA-on-FGA model of server_authz_test.go; per-store can_call_* / roles; per-module grants; system-level grants; grants on a store not in the "
                 "case) + 12-28 calls over every store-scoped RPC + CreateStore/ListStores, caller in {A,B,empty client id,no claims}, writes spanning 0-4 modules, "
@@ -261,7 +261,7 @@ AGENT_CHECKS = {
     },
     "C30": {
         "pkg": "p30",
-        "runs": [_r("TestC30", 2000, 100000)],
+        "runs": [_r("TestC30", 8000, 100000)],
         "rule": "shared generator G (model + valid tuples + left-overs); one focus (object, relation), preferably with >= 2 operator levels, gets extra valid "
                 "tuples and extra tuples NOT valid for the model on exactly the relations its Expand reads (itself, its TTU tuplesets); 2-5 Expand queries "
                 "with contextual tuples on the read relations and elsewhere. Non-trivial: the expanded rewrite has >= 2 operator levels and a direct leaf that "
@@ -274,7 +274,7 @@ AGENT_CHECKS = {
     },
     "C32": {
         "pkg": "p32",
-        "runs": [_r("TestC32", 800, 40000)],
+        "runs": [_r("TestC32", 4000, 40000)],
         "rule": "shared generator G, some condition parameters renamed to subject_/resource_/action_<p> so AuthZEN properties matter; a batch of 2-6 AuthZEN "
                 "items derived from native requests with each prefixed context key placed in the request context, a properties object, or both; top-level "
                 "defaults with per-item inheritance or override; every item as a single Evaluation and the batch with no options, execute_all, "
@@ -288,7 +288,7 @@ AGENT_CHECKS = {
     },
     "C31": {
         "pkg": "p31",
-        "runs": [_r("TestC31", 500, 30000, qt=1500)],
+        "runs": [_r("TestC31", 1500, 30000, qt=1500)],
         "rule": "rapid draws a backend (memory | sqlite: migrated template copied per case), 2 stores x 1-3 models (in ~1/3 of cases store 1 re-uses store 0's "
                 "model ids) and 3-10 steps: WriteAssertions with 0-20 assertions valid for the model (contextual tuples, nested contexts) or a list spoiled in "
                 "one of 10 ways (must be rejected), and ReadAssertions. After every step every (store, model) pair is read back. Non-trivial: >= 2 pairs "
